@@ -166,6 +166,15 @@ type setterTr struct {
 	retK   string
 	fresh  int
 	guards []string // partial operations of the expression being translated; each is a prefix that ends in "=>" or "else"
+	crash  string   // what a failed partial operation evaluates to ("None" for setters, "Crash" for pure functions)
+	pure   *pureTr  // non-nil while a pure function is translated: extra expression forms
+}
+
+func (t *setterTr) crashV() string {
+	if t.crash == "" {
+		return "None"
+	}
+	return t.crash
 }
 
 func (t *setterTr) pos(n ast.Node) string { return t.p.fset.Position(n.Pos()).String() }
@@ -179,6 +188,11 @@ func (t *setterTr) kindOfExpr(e ast.Expr) string {
 	tv, ok := t.p.info.Types[e]
 	if !ok {
 		return ""
+	}
+	if t.pure != nil {
+		if k := pureKind(tv.Type); k != "" {
+			return k
+		}
 	}
 	if k := kindOf(tv.Type); k != "" {
 		return k
@@ -284,6 +298,11 @@ func (t *setterTr) expr(e ast.Expr) string {
 		}
 		t.unsupported(e, "binary "+x.Op.String())
 	case *ast.CallExpr:
+		if t.pure != nil {
+			if r, ok := t.pure.call(t, x); ok {
+				return r
+			}
+		}
 		if id, ok := x.Fun.(*ast.Ident); ok && id.Name == "len" && len(x.Args) == 1 {
 			if _, isB := t.p.info.Uses[id].(*types.Builtin); isB {
 				return "(Z.of_nat (length " + t.expr(x.Args[0]) + "))"
@@ -312,7 +331,7 @@ func (t *setterTr) expr(e ast.Expr) string {
 		t.fresh++
 		n := fmt.Sprintf("idx%d", t.fresh)
 		// Go panics when the index is out of range
-		t.guards = append(t.guards, fmt.Sprintf("match nth_error %s %d with None => None | Some %s =>", base, i, n))
+		t.guards = append(t.guards, fmt.Sprintf("match nth_error %s %d with None => %s | Some %s =>", base, i, t.crashV(), n))
 		return n
 	case *ast.SliceExpr:
 		if t.kindOfExpr(x.X) != "str" || x.Slice3 {
@@ -333,7 +352,7 @@ func (t *setterTr) expr(e ast.Expr) string {
 		}
 		base := t.expr(x.X)
 		// Go panics when hi > len
-		t.guards = append(t.guards, fmt.Sprintf("if Nat.ltb (length %s) %d then None else", base, hi))
+		t.guards = append(t.guards, fmt.Sprintf("if Nat.ltb (length %s) %d then %s else", base, hi, t.crashV()))
 		return fmt.Sprintf("(firstn %d (skipn %d %s))", hi-lo, lo, base)
 	}
 	t.unsupported(e, fmt.Sprintf("expression %T", e))
